@@ -55,3 +55,8 @@ func cleanDir(d string) string {
 	os.MkdirAll(d, 0755)
 	return d
 }
+
+func stackHere() string {
+	b := make([]byte, 8192)
+	return string(b[:runtime.Stack(b, false)])
+}
